@@ -32,7 +32,11 @@ Require Import Verif.Gen.Gen_counter Verif.CT.CTModel Verif.CT.CTProofs.
 Import ListNotations.
 
 (* At any quiescent point an adder reports exactly the sum of everything added and a summer the exact sum and
-   count, for every history of thread birth/death and instance construction/destruction/move. *)
+   count - both components, through both public overloads: CAdd = `<< value` (counts {value, 1}) and CAdd2 =
+   `<< Summary{s, n}` with arbitrary s and n (either may be zero or negative) - for every history of thread
+   birth/death and instance construction/destruction/move.  The summer's reader adds every visited slot: the
+   regenerated flag summer_reader_unfiltered (no condition / early exit inside ConcurrentSummer::value) is used by
+   the proof (g_summer_unfiltered). *)
 Theorem c19_sum_exact : forall cf h c i, cfg_ok cf -> ck cf = KAdder \/ ck cf = KSummer ->
   let x := run cf (start cf) h in
   threads_small cf x -> chnd x c = Some i ->
@@ -122,6 +126,14 @@ Proof. exact ct_recycle_exact. Qed.
 Print Assumptions c19_recycle_race_exact.
 
 (* ---- non-vacuity ---- *)
+(* summer: thread 1 contributes a sum-only correction {-5, 0} and exits; thread 2 reuses its line with a count-only {0, 4} *)
+Example c19_summer_sum_only :
+  let h := [Spawn 0; Spawn 1; CNew 0; CAdd 0 0 10; CAdd2 1 0 (-5) 0; Exit 1; Spawn 2; CAdd2 2 0 0 4]%Z in
+  let x := run cfg_summer (start cfg_summer) h in
+  threads_small cfg_summer x /\ (g_sum x 0, g_cnt x 0) = (5, 5)%Z /\ t_tid (thr x 2) = Some 1%nat /\
+  snd (step cfg_summer x (CRead 0)) = OVal 5 5.
+Proof. cbv zeta. split; [vm_compute; discriminate|]. repeat split; vm_compute; reflexivity. Qed.
+
 (* 3 lines, dirty column of instance 0, the other thread owns line 2: it constructs after the release and recycles id 0 *)
 Example c19_recycle_run :
   let m0 := fun j k => if Nat.eqb j 0 && Nat.ltb k 3 then 7%Z else 0%Z in
